@@ -223,6 +223,22 @@ def _raw_effects(p):
 
 def compare(program, live_fi, ref_fi, effects=default_effects, **kw):
     r = _compare(program, live_fi, ref_fi, effects=effects, **kw)
+    if r.get("loops_live") != r.get("loops_ref"):
+        # the two sides disagree on which loops carry state (one of them
+        # keeps a candidate or a flag the other does not): run both with two
+        # representatives in every loop, or, if that is too much, both with
+        # one, so that the tables are over the same observations
+        for pol in ("twice", "once"):
+            kw2 = dict(kw)
+            kw2["live_kw"] = dict(kw.get("live_kw") or {},
+                                  loop_policy=lambda n, p=pol: p)
+            kw2["ref_kw"] = dict(kw.get("ref_kw") or {},
+                                 loop_policy=lambda n, p=pol: p)
+            try:
+                r = _compare(program, live_fi, ref_fi, effects=effects, **kw2)
+                break
+            except AnalysisError:
+                continue
     r["ref_fi"] = ref_fi
     r["live_fi"] = live_fi
     if r["verdict"] == "violation":
@@ -269,6 +285,17 @@ def _compare(program, live_fi, ref_fi, effects=default_effects,
     live_paths = A.Interp(live_fi, program, **live_kw).paths()
     ref_paths = A.Interp(ref_fi, program, **ref_kw).paths()
     rn = rename or (lambda s: s)
+    r = _compare_paths(live_paths, ref_paths, effects, outcome_norm, rn,
+                       independent)
+    r["loops_live"] = {a for p in live_paths for a in p.valuation
+                       if a[0] == "loop"}
+    r["loops_ref"] = {a for p in ref_paths for a in p.valuation
+                      if a[0] == "loop"}
+    return r
+
+
+def _compare_paths(live_paths, ref_paths, effects, outcome_norm, rn,
+                   independent):
 
     def norm(p):
         o = norm_outcome(p, effects, outcome_norm)
